@@ -671,6 +671,10 @@ def id_base(rng, with_source=True):
     n = rng.choice([2, 3])
     vals = rng.sample(VALS, 5)
     blocks = [{"mode": BP, "context": [["value", vals[:n]], ["factor", [rng.choice(VALS) for _ in range(n)]]], "source": None}]
+    if rng.random() < 0.6:
+        # a string-valued key no node reads: text with line breaks (YAML block scalars end in one)
+        texts = ["first line\nsecond line\n", "tail\n", "a\r\nb", "plain", "two\n\n", "cr\rlf"]
+        blocks[0]["context"].append(["note", [rng.choice(texts) for _ in range(n)]])
     if with_source:
         fmt = rng.choice(["json", "csv"])
         blocks.append({"mode": BP, "context": [], "source": {"format": fmt, "path": "inputs/src." + fmt, "cols": [["gain", [rng.choice(VALS) for _ in range(n)]],
@@ -697,6 +701,12 @@ def mutations(spec, rng):
     mut("combine", lambda s: s.__setitem__("combine", CB if len(s["blocks"]) == 1 else s["combine"]))
     mut("block-mode", lambda s: s["blocks"][0].__setitem__("mode", CB) if len(s["blocks"][0]["context"][0][1]) == 1 else s["blocks"][0]["context"].append(["extra", [1] * len(s["blocks"][0]["context"][0][1])]))
     mut("context-key-added", lambda s: s["blocks"][0]["context"].append(["zkey", [3] * len(s["blocks"][0]["context"][0][1])]))
+    for col in spec["blocks"][0]["context"]:
+        if col[0] == "note":
+            i = next((j for j, t in enumerate(col[1]) if t.endswith("\n")), None)
+            if i is not None:
+                mut("string-trailing-line-break-removed", lambda s, i=i: [c for c in s["blocks"][0]["context"] if c[0] == "note"][0][1].__setitem__(i, col[1][i][:-1]))
+            mut("string-line-appended", lambda s: [c for c in s["blocks"][0]["context"] if c[0] == "note"][0][1].__setitem__(0, col[1][0] + "\nmore"))
     if len(spec["blocks"]) > 1 and spec["blocks"][1].get("source"):
         mut("source-rename-target", lambda s: s["blocks"][1]["source"].__setitem__("rename", [["gain", "g3"]]))
         mut("source-select", lambda s: s["blocks"][1]["source"].__setitem__("select", ["gain", "unused"]))
